@@ -18,6 +18,9 @@ type Ankr struct {
 
 // GetAnchor return the i-th anchor for `glyph`, or {0,0} if not found.
 func (ank Ankr) GetAnchor(glyph GlyphID, index int) (anchor AnkrAnchor) {
+	if ank.lookupTable == nil { // absent or invalid 'ankr' table
+		return anchor
+	}
 	offset, ok := ank.lookupTable.Class(glyph)
 	if !ok || int(offset)+4 >= len(ank.glyphDataTable) {
 		return anchor
